@@ -28,10 +28,15 @@ SPECS_FLOAT = ["", ":?", ":e", ":E", ":.2", ":+.3e", ":10.1", ":<+12.4E", ":08.2
 SPECS_PARAM = [":1$", ":w$", ":.1$", ":.w$", ":>1$.1$", ":.*"]
 
 
+def lname(n):
+    """name of a field inside a format literal (raw identifiers lose their prefix)"""
+    return n[2:] if n.startswith("r#") else n
+
+
 class Shape:
-    def __init__(self, named, n, float_=False):
-        self.named, self.n, self.float_ = named, n, float_
-        self.names = (["x", "y", "zed"][:n] if named else ["_%d" % i for i in range(n)])
+    def __init__(self, named, n, float_=False, raw=False):
+        self.named, self.n, self.float_, self.raw = named, n, float_, raw
+        self.names = ((["r#type", "r#fn", "r#loop"] if raw else ["x", "y", "zed"])[:n] if named else ["_%d" % i for i in range(n)])
         self.ty = "f64" if float_ else "&'static i32"
 
     def decl(self):
@@ -62,7 +67,8 @@ def arg_templates(sh):
         T.append(("star", [(None, "3usize", None, "usize"), (None, f[0], None, "ref")]))
     if sh.n >= 2:
         T.append(("reversed", [(None, a, None, "ref") for a in reversed(f)]))
-        T.append(("shadow", [(f[0], f[1], None, "ref")]))
+        if not getattr(sh, "raw", False):
+            T.append(("shadow", [(f[0], f[1], None, "ref")]))
     return T
 
 
@@ -80,7 +86,7 @@ def placeholders(sh, tname, targs, quick):
         aliases = {a for a, _, _, _ in targs if a}
         for n in sh.names:
             if n not in aliases:
-                refs.append((n, "ref"))           # the field itself, captured by name
+                refs.append((lname(n), "ref"))    # the field itself, captured by name
     for rf, kind in refs:
         for sp in specs:
             if ":p" in sp and kind != "ref":
@@ -89,7 +95,7 @@ def placeholders(sh, tname, targs, quick):
     if tname == "width":
         for sp in SPECS_PARAM[:5]:
             out.append("{0%s}" % sp)
-            out.append("{%s%s}" % (sh.names[0], sp))
+            out.append("{%s%s}" % (lname(sh.names[0]), sp))
     if tname == "star":
         out += ["{:.*}", "{:>9.*}"]
     return out
@@ -139,14 +145,33 @@ def literals(sh, tname, targs, quick):
     return out
 
 
-def tail_for(targs):
-    """A literal suffix that uses every argument once (format_args! rejects unused arguments)."""
+def tail_for(targs, head=""):
+    """A literal suffix that uses every argument the head leaves unused (format_args! rejects unused arguments)."""
+    import re
     if not targs:
         return ""
+    used_pos, used_names, implicit = set(), set(), 0
+    for m in re.finditer(r"\{([^{}]*)\}", head.replace("{{", "").replace("}}", "")):
+        body = m.group(1)
+        arg, _, spec = body.partition(":")
+        if ".*" in spec:
+            used_pos.add(implicit)
+            implicit += 1
+        for w in re.findall(r"(\w+)\$", spec):
+            (used_pos.add(int(w)) if w.isdigit() else used_names.add(w))
+        if arg == "":
+            used_pos.add(implicit)
+            implicit += 1
+        elif arg.isdigit():
+            used_pos.add(int(arg))
+        else:
+            used_names.add(arg)
     out = []
     for j, (a, e, _, _) in enumerate(targs):
+        if (a and a in used_names) or (not a and j in used_pos):
+            continue
         out.append("{%s}" % (a if a else j))
-    return "|" + "".join(out)
+    return ("|" + "".join(out)) if out else ""
 
 
 def lit_rs(s):
@@ -170,7 +195,7 @@ def case_for(cid, derive, sh, entries, struct_mode=False):
     variants, checks = [], []
     for k, (lit, tname, targs) in enumerate(entries):
         vname = "V%d" % k
-        lit = lit + tail_for(targs)
+        lit = lit + tail_for(targs, lit)
         variants.append(variant_code(sh, vname, attr, lit, targs, None))
         # reference: args evaluated with field names = references to the fields
         ctor = sh.ctor("E::" + vname, fieldvals)
@@ -188,7 +213,7 @@ pub enum E { %s }
 pub fn run(r: &mut R) {
     %s
 }""" % (derive, ",\n    ".join(variants), "\n    ".join(checks))
-    return Case(cid, mod, meta={"derive": derive, "shape": ("named" if sh.named else "tuple") + str(sh.n) + ("f" if sh.float_ else ""),
+    return Case(cid, mod, meta={"derive": derive, "shape": ("named" if sh.named else "tuple") + str(sh.n) + ("f" if sh.float_ else "") + ("raw" if getattr(sh, "raw", False) else ""),
                                 "n": len(entries), "sample": "#[derive(%s)] enum E { %s, .. }" % (derive, variants[len(variants) // 2])})
 
 
@@ -205,7 +230,7 @@ def struct_case(cid, derive, sh, lit, tname, targs, use_self):
         d = "" if sh.float_ else "*"
         targs_attr = [(None, "%sself.%s" % (d, member), None, "val")] + targs_attr
         targs_ref = [(None, "%sthis.%s" % (d, member), None, "val")] + targs_ref
-    lit = lit + tail_for(targs_attr)
+    lit = lit + tail_for(targs_attr, lit)
     args_attr = ", ".join(("%s = %s" % (a, e)) if a else e for a, e, _, _ in targs_attr)
     semi = "" if sh.named else ";"
     decl = "#[%s(%s%s)] pub struct S%s%s" % (attr, lit_rs(lit), (", " + args_attr) if args_attr else "", sh.decl(), semi)
@@ -296,6 +321,8 @@ def run(chk, tier):
             shapes += [Shape(False, 3), Shape(True, 3)]
         if derive in ("Display", "LowerExp", "UpperExp", "Debug"):
             shapes += [Shape(False, 1, True), Shape(True, 2, True)]
+        if derive in ("Display", "Pointer", "Debug", "LowerHex"):
+            shapes += [Shape(True, 1, raw=True), Shape(True, 2, raw=True)]
         for sh in shapes:
             entries = []
             for tname, targs in arg_templates(sh):
@@ -315,7 +342,7 @@ def run(chk, tier):
                 if sh.n >= 1 and tname in ("none", "idents") and "{}" not in l and "{:" not in l and not any(c.isdigit() for c in l.replace("_0", "").replace("_1", "").replace("_2", "")):
                     pass
             if sh.n >= 1:
-                for l in (["{0}", "{0:?} {}"] if sh.n == 1 else ["{0}", "{0}{1}", "{} {1} {%s}" % sh.names[1]]):
+                for l in (["{0}", "{0:?} {}"] if sh.n == 1 else ["{0}", "{0}{1}", "{} {1} {%s}" % lname(sh.names[1])]):
                     targs = [] if l == "{0}" else [(None, sh.names[-1], None, "ref")]
                     if sh.float_ and derive not in ("Display", "Debug", "LowerExp", "UpperExp"):
                         continue
